@@ -816,8 +816,11 @@ static void gen_expr(Node *node) {
       // If the lhs is a bitfield, we need to read the current value
       // from memory and merge it with a new value.
       Member *mem = node->lhs->member;
+      // The mask may not fit in a 32-bit immediate, so it is loaded
+      // into a register first.
       println("  mov %%rax, %%rdi");
-      println("  and $%ld, %%rdi", (1L << mem->bit_width) - 1);
+      println("  mov $%ld, %%r9", (1L << mem->bit_width) - 1);
+      println("  and %%r9, %%rdi");
       println("  shl $%d, %%rdi", mem->bit_offset);
 
       println("  mov (%%rsp), %%rax");
